@@ -283,6 +283,8 @@ func cnfInstance(r *world.Rng, maxN int, odd bool) (int, [][]int) {
 			}
 			cl = append(cl, []int{a, b}, []int{a, -b})
 		}
+	case 4: // propagation puzzle: units in the middle of the list, chains that only close after several passes
+		n, cl = upPuzzle(r, min(maxN, 12))
 	default: // uniform k-SAT around the threshold
 		n = r.Range(1, maxN)
 		if r.Bool(0.7) {
@@ -805,6 +807,7 @@ func genC04(r *world.Rng, w *world.World, big bool) {
 	m := r.Range(1, 12)
 	wcnf := r.Bool(0.45)
 	var soft []world.Soft
+	var poolVec []int
 	for i := 0; i < m; i++ {
 		form := "clause"
 		if !wcnf {
@@ -831,6 +834,18 @@ func genC04(r *world.Rng, w *world.World, big bool) {
 			for j := range c.Coefs {
 				c.Coefs[j] = r.Range(1, 4)
 				sum += c.Coefs[j]
+			}
+			if poolVec != nil && r.Bool(0.6) { // same coefficient vector as another constraint
+				l = distinctLits(r, n, len(poolVec))
+				if len(l) == len(poolVec) {
+					c = ref.Con{Lits: l, Coefs: append([]int{}, poolVec...)}
+					sum = 0
+					for _, x := range poolVec {
+						sum += x
+					}
+				}
+			} else if poolVec == nil && len(l) >= 2 {
+				poolVec = append([]int{}, c.Coefs...)
 			}
 			c.K = r.Range(1, sum)
 		}
@@ -865,6 +880,7 @@ func genC04(r *world.Rng, w *world.World, big bool) {
 	} else {
 		t.Route = "api"
 		t.Entry = "solve"
+		t.Stop = r.Bool(0.5) // for API worlds: the caller shares equal coefficient slices between constraints
 	}
 	w.Tasks = []world.TaskSpec{t}
 	w.MapSeed = r.Next() | 1
@@ -915,6 +931,17 @@ func genC14(r *world.Rng, w *world.World, big bool) {
 		}
 	}
 	t := world.TaskSpec{N: n, Cons: cs, Route: route, AMO: r.Bool(0.4)}
+	if r.Bool(0.3) { // binary-rich clausal problem with at-most-one detection on
+		gn, gcl := oneHotGroups(r, 12)
+		t.N, t.Cons = gn, nil
+		for _, c := range gcl {
+			t.Cons = append(t.Cons, ref.Con{Lits: c, K: 1})
+		}
+		t.AMO = true
+		t.Route = r.PickS("cnf", "cnf", "pb", "card")
+		route = t.Route
+		n = gn
+	}
 	if r.Bool(0.5) {
 		t.Kind = "pb"
 		t.Entry = "both"
@@ -1063,4 +1090,132 @@ func max(a, b int) int {
 		return a
 	}
 	return b
+}
+
+// upPuzzle builds a formula whose verdict is decided by unit propagation at parse time, with the
+// unit clauses (plain, or written with a repeated literal) at arbitrary positions, implication
+// clauses placed before and after them, optionally a clause falsified by the propagated
+// assignment, and padding. Order matters to any fixpoint computation: that is the point.
+func upPuzzle(r *world.Rng, maxN int) (int, [][]int) {
+	n := r.Range(3, max(3, maxN))
+	val := make([]bool, n+1)
+	for v := 1; v <= n; v++ {
+		val[v] = r.Bool(0.5)
+	}
+	tl := func(v int) int { // the literal of v that is true under val
+		if val[v] {
+			return v
+		}
+		return -v
+	}
+	p := r.Perm(n)
+	k := r.Range(1, 3) // seeds: propagated from unit clauses
+	var cl [][]int
+	known := []int{}
+	for i := 0; i < k && i < n; i++ {
+		v := p[i] + 1
+		u := []int{tl(v)}
+		if r.Bool(0.4) {
+			u = []int{tl(v), tl(v)} // becomes unit only after duplicate removal
+		}
+		cl = append(cl, u)
+		known = append(known, v)
+	}
+	for i := k; i < n; i++ { // each further variable implied by one or two known ones
+		v := p[i] + 1
+		if r.Bool(0.25) {
+			continue // left free
+		}
+		c := []int{tl(v), -tl(known[r.Intn(len(known))])}
+		if r.Bool(0.4) {
+			o := known[r.Intn(len(known))]
+			if -tl(o) != c[1] {
+				c = append(c, -tl(o))
+			}
+		}
+		cl = append(cl, c)
+		known = append(known, v)
+	}
+	if r.Bool(0.5) && len(known) >= 2 { // victim: falsified once everything is propagated
+		a, b := known[r.Intn(len(known))], known[r.Intn(len(known))]
+		c := []int{-tl(a), -tl(b)}
+		if a == b {
+			c = c[:1]
+		}
+		if r.Bool(0.3) {
+			o := known[r.Intn(len(known))]
+			if o != a && o != b {
+				c = append(c, -tl(o))
+			}
+		}
+		cl = append(cl, c)
+	}
+	for i := 0; i < r.Range(0, 5); i++ { // padding over any variables
+		cl = append(cl, distinctLits(r, n, r.Range(2, min(n, 3))))
+	}
+	q := r.Perm(len(cl))
+	out := make([][]int, len(cl))
+	for i, j := range q {
+		out[i] = cl[j]
+	}
+	return n, out
+}
+
+// oneHotGroups: binary-rich clausal problem: several groups with at-least-one and pairwise
+// at-most-one clauses, plus mixed-polarity binary clauses (implications) between members, in
+// random order. This is what at-most-one detection looks for, and what can confuse it.
+func oneHotGroups(r *world.Rng, maxN int) (int, [][]int) {
+	var cl [][]int
+	n := 0
+	g := r.Range(2, 4)
+	var groups [][]int
+	for i := 0; i < g && n < maxN-1; i++ {
+		sz := r.Range(2, 4)
+		if n+sz > maxN {
+			sz = maxN - n
+		}
+		var vs []int
+		for j := 0; j < sz; j++ {
+			n++
+			vs = append(vs, n)
+		}
+		groups = append(groups, vs)
+		if r.Bool(0.8) {
+			cl = append(cl, append([]int{}, vs...))
+		}
+		for a := 0; a < len(vs); a++ {
+			for b := a + 1; b < len(vs); b++ {
+				if r.Bool(0.92) {
+					cl = append(cl, []int{-vs[a], -vs[b]})
+				}
+			}
+		}
+	}
+	for i := 0; i < r.Range(1, 6); i++ { // implications and other binaries across groups
+		a := r.Range(1, n)
+		b := r.Range(1, n)
+		if a == b {
+			continue
+		}
+		switch r.Intn(3) {
+		case 0:
+			cl = append(cl, []int{-a, b})
+		case 1:
+			cl = append(cl, []int{a, b})
+		default:
+			cl = append(cl, []int{-a, -b})
+		}
+	}
+	for i := 0; i < r.Range(0, 3); i++ {
+		cl = append(cl, distinctLits(r, n, r.Range(2, min(n, 3))))
+	}
+	if r.Bool(0.3) && len(cl) > 0 {
+		cl = append(cl, append([]int{}, cl[r.Intn(len(cl))]...))
+	}
+	q := r.Perm(len(cl))
+	out := make([][]int, len(cl))
+	for i, j := range q {
+		out[i] = cl[j]
+	}
+	return n, out
 }
